@@ -435,6 +435,14 @@ namespace sqf::parser::assembly
                     return t;
                 }
             }
+            // Nothing matched: the invalid token covers one character, so that a parser that recovers
+            // from syntax errors gets to the end of the input.
+            if (m_current != m_end)
+            {
+                t.contents = { &*m_current, 1 };
+                ++m_current;
+                ++m_column;
+            }
             return t;
         }
 
@@ -527,7 +535,7 @@ namespace sqf::parser::assembly
             case '\t':          return try_match({ etoken::i_whitespace });
             case '\n':          return try_match({ etoken::i_whitespace });
             case '#':           return try_match({ etoken::m_line, etoken::t_operator });
-            default:            return create_token();
+            default:            return try_match({ });
             }
         }
         token create_token(etoken token_type = etoken::invalid) const
